@@ -111,6 +111,12 @@ def search(ctx, N):
         kind = int(rng.integers(0, 10))
         length = int(rng.integers(1, 201)) if k % 4 == 0 else int(rng.integers(3, 60))
         seq = gen_seq(rng, kind, length)
+        if k % 5 == 4:
+            # the same sequence at a very large magnitude (1e45 .. 1e57, far from overflow; scaling by a power of two is exact): nothing in Dea may
+            # carry an absolute scale
+            sc = 2.0 ** int(rng.integers(150, 191))
+            if all(np.isfinite(s) and abs(s) < 1e6 for s in seq):
+                seq = [float(s * sc) for s in seq]
         d, outs, raised = run_dea(limexp, seq)
         ctx.count(1)
         if raised is not None:
